@@ -263,6 +263,15 @@ MUTANTS = [
     ("c15-guard-not-on-eigenvalues", ["C15"], "R1", H,
      "        if (np.abs(eval_differences) > ERROR_THRESHOLD).any():",
      "        if (np.abs(expected_evals) > 2).any():"),
+    ("c15-eig-no-transpose", ["C15", "C16"], "EIG1", H,
+     "        eigvals, eigvecs = utils.eig(self.proj_data.swapaxes(-1, -2))\n        norms = utils.normsq(",
+     "        eigvals, eigvecs = utils.eig(self.proj_data)\n        norms = utils.normsq("),
+    ("c15-reflection-conjugation-order", ["C15"], "REF1", H,
+     "        refdata = (utils.invert(dual_data) @\n                   self.minkowski @\n                   dual_data)",
+     "        refdata = (dual_data @\n                   self.minkowski @\n                   utils.invert(dual_data))"),
+    ("c16-eigenvector-no-transpose", ["C16", "C15"], "EIG1", P,
+     "        eigvals, eigvecs = utils.eig(self.proj_data.swapaxes(-1, -2))\n        eigvec_coords",
+     "        eigvals, eigvecs = utils.eig(self.proj_data)\n        eigvec_coords"),
     # ---- C16
     ("c16-float-cast", ["C16"], "C1", P,
      "    if (np.abs(apoints[..., _chart_index]).astype('float64') == 0).any():",
